@@ -71,6 +71,7 @@ func resolveRedisRoles(c *Ctx) *redisRoles {
 	c.Role("redis.encodeRecord", relName(r.encode), r.encode.Pos())
 	c.Role("redis.expiration", relName(r.expiration), r.expiration.Pos())
 	c.Role("redis.keyMapping", relName(r.mapKey), r.mapKey.Pos())
+	c.KeyByRole(r.mapKey, "redis.keyMapping")
 	c.Role("redis.keyUnmapping", relName(r.unmapKey), r.unmapKey.Pos())
 	c.Role("redis.errorMapping", relName(r.mapErr), r.mapErr.Pos())
 	r.newID = c.P.Func("ulidutils", "NewID")
